@@ -312,6 +312,13 @@ def f_and(*fs):
     for f in out:
         if f not in out2:
             out2.append(f)
+    # absorption: a && (a || b) is a; contradiction: a && !a is false
+    for f in list(out2):
+        if f[0] == "or" and any(g in f[1:] for g in out2 if g is not f):
+            out2.remove(f)
+    for f in out2:
+        if ("not", f) in out2:
+            return ("F",)
     if not out2:
         return ("T",)
     if len(out2) == 1:
